@@ -77,6 +77,10 @@ def scenarios(res):
         for i in range(0, len(gets), 100):
             scs.append({"id": sid, "rr": rr, "rq": 1, "gets": gets[i:i + 100]})
             sid += 1
+    # (d): Expire as the newest write, then an older copy turns up
+    for rr in (False, True):
+        scs.append({"id": sid, "rr": rr, "rq": 1, "expires": [{"mode": "merge"}, {"mode": "backup"}, {"mode": "merge"}]})
+        sid += 1
     # (b): merges through the real MOVEFRAGMENT handler
     orders = merge_orders(3)
     ncontent = 6 if quick else 60
@@ -217,11 +221,36 @@ def check(sc, ob):
         m = check_merge(sc, mg, ob["merges"][i])
         if m:
             bad.append(("merge", i, m))
+    for i, x in enumerate(sc.get("expires", [])):
+        m = check_expire(sc, x, (ob.get("expires") or [None] * (i + 1))[i])
+        if m:
+            bad.append(("expire", i, m))
     if sc.get("race"):
         m = check_race(sc, ob.get("race"))
         if m:
             bad.append(("race", 0, m))
     return bad
+
+
+def check_expire(sc, x, o):
+    """Put; Expire (the newest write: same value, a deadline, a newer timestamp); then an older copy of the key turns up
+    (re-delivered fragment / stale backup): the owner keeps the Expire's entry, Get reports its deadline, and with
+    read-repair the stale backup is brought to it"""
+    if o is None:
+        return "the harness returned no observation"
+    nw = o["newest"]
+    if not (nw.get("found") and nw.get("ttl", 0) > 0 and nw.get("ts", 0) > o["old"].get("ts", 0)):
+        return None            # the Expire did not produce a newer entry on the backups: not this predicate's subject (C04/C09)
+    ow = o["owner"]
+    if not ow.get("found") or ow.get("ttl", 0) != nw["ttl"]:
+        return "after %s of the pre-Expire copy the owner's copy has ttl %s, the newest write (Expire) set %s: the older copy won" % (
+            "a re-delivered fragment" if x["mode"] == "merge" else "a stale backup + Get", ow.get("ttl", 0), nw["ttl"])
+    if o["get"] != "ok" or o.get("get_ttl", 0) != nw["ttl"]:
+        return "Get returns %s with ttl %s after an older copy turned up (%s), the newest write (Expire) set %s" % (
+            o["get"], o.get("get_ttl"), x["mode"], nw["ttl"])
+    if x["mode"] == "backup" and sc.get("rr") and o["backup"].get("ttl", 0) != nw["ttl"]:
+        return "read-repair left the stale backup copy (ttl %s) although the winner has ttl %s" % (o["backup"].get("ttl", 0), nw["ttl"])
+    return None
 
 
 # ------------------------------------------------------------------------------------------------
@@ -315,6 +344,8 @@ def minimise(sc, what, idx):
                     break
     elif what == "race":
         c = dict(base, race=True)
+    elif what == "expire":
+        c = dict(base, expires=[sc["expires"][idx]])
     else:
         return qlib.strip(sc)
     if check(c, run_one(c)):
